@@ -9,5 +9,8 @@ mkdir -p bin evidence
 (cd fgcheck && go build -o ../bin/fgcheck .)
 for m in . pkg/kmsg pkg/kfake pkg/kadm pkg/sr plugin/kotel; do
   (cd /repo/$m && go build ./... >/dev/null 2>&1 || true)
+  # the extra build configurations analysed by the thorough tier
+  (cd /repo/$m && GOARCH=386 go build ./... >/dev/null 2>&1 || true)
+  (cd /repo/$m && go build -tags synctests ./... >/dev/null 2>&1 || true)
 done
 echo setup done
